@@ -11,7 +11,9 @@ Tie:      the REAL Patron (ioflo/aio/http/clienting.py of $IOFLO_REPO) is driven
           `Std` parameter (table lookup; a call the model makes that the code did not make is `std-miss`).
 Oracle:   independent of the model: RFC 3986 §5.2 reference resolution written here + the clauses of the
           property (one request per redirect, to the resolved location, on the right endpoint, reconnect
-          iff endpoint/scheme differ, never https→http, one final response carrying the chain in order; a redirect whose Location is
+          iff endpoint/scheme differ, never https→http, one final response carrying the chain in order; what a host receives on a connection
+          begins with a request line — also when the redirect arrives while part of the redirected request is still
+          queued in the connector; a redirect whose Location is
           missing, empty, malformed or unresolvable is not followed and not raised but delivered as the final
           response, flagged errored, with nothing sent for it and the connection kept).
 """
@@ -117,7 +119,8 @@ class CHECK(core.Check):
     N_SEARCH = 1500
     RULE = ("histories for one Patron — constructed in every documented way: hostname/port with or without scheme, a "
             "full URL as path, a caller-supplied plain or TLS connector (scheme given or not), store given or not — "
-            "over socket-pair doubles: 1-3 top-level requests (GET/HEAD/POST/PUT/DELETE, "
+            "over socket-pair doubles (the client's socket may take only the head and 0..n-1 body bytes of an upload, the "
+            "server then answering the head early): 1-3 top-level requests (GET/HEAD/POST/PUT/DELETE, "
             "unicode paths, query args, bodies, some queued while waiting), each answered by a chain of 0-5 redirect "
             "responses (300/301/302/303/307; Location absolute with/without port/path/query/fragment/userinfo, "
             "upper-case scheme/host, network-path, absolute-path, relative-path with ./ and ../, query-only; "
@@ -128,7 +131,8 @@ class CHECK(core.Check):
             "distinct by case content")
     TRUSTED = ["correspondence: the real Patron/Requester/Respondent of $IOFLO_REPO run in-process over socket.socketpair "
                "doubles (tcp Client subclass: only open/accept replaced; DNS double for aioing.normalizeHost; 'TLS' is a "
-               "flag, no cryptography) against scripted stub servers; effects per service round compared with the Lean model",
+               "flag, no cryptography; the client socket double can refuse bytes beyond a cap with EAGAIN, the real "
+               "Client.send/serviceTxes queue the remainder) against scripted stub servers; effects per service round compared with the Lean model",
                "urllib.parse (urlsplit, urljoin, unquote, quote, quote_plus, unquote_plus) and DNS enter the model as the "
                "parameter `Std`; the driver instantiates it with the results recorded from the implementation's own calls",
                "oracle: RFC 3986 section 5.2 reference resolution + unquote_to_bytes/parse_qsl of CPython for target equivalence",
@@ -160,7 +164,10 @@ class CHECK(core.Check):
                   "answers), C34_followed_request: method kept, body dropped, Host of the new "
                   "authority); after redirects rs and a final response f .responses grows by exactly one entry carrying rs in "
                   "arrival order, none flagged errored, .redirects is empty again, one request per redirect, one delivery "
-                  "(C34_chain_in_order); a redirect whose Location is missing, empty, rejected by urljoin/urlsplit/.port, "
+                  "(C34_chain_in_order); the connector's transmit queue only ever holds requests (or unsent remainders) built for the "
+                  "connection in use, for every pattern of partial sends (C34_unsent_belongs_to_connection), and a connection "
+                  "opened by a redirect starts with exactly the reissued request (C34_new_connection_starts_clean); "
+                  "a redirect whose Location is missing, empty, rejected by urljoin/urlsplit/.port, "
                   "host-less or unresolvable produces the single effect `deliver` of that response flagged errored with "
                   "the chain so far, connection and requester untouched (C34_bad_location_delivered), and over all histories "
                   "neither InvalidURL nor gaierror ever leaves serviceAll (C34_location_errors_contained). "
@@ -174,6 +181,7 @@ class CHECK(core.Check):
     def __init__(self):
         self._trace = {}
         self._wrote = {}
+        self._partial = {}
         self._lossy_cache = {}
 
     # ------------------------------------------------------------------ generation
@@ -304,6 +312,12 @@ class CHECK(core.Check):
             for k in rng.sample(["k", "q", "n", "x-y"], rng.choice([0, 0, 1, 2])):
                 qargs.append([k, rng.choice(self.VALS)])
             req = {"op": "request", "method": method, "path": self._plain_path(rng), "qargs": qargs, "body": body.hex()}
+            if queued_extra == 0 and rng.random() < 0.25:
+                # an upload the socket takes only partly before the response arrives (the server answers the head early)
+                method = req["method"] = rng.choice(["POST", "PUT", "DELETE"])
+                body = bytes(rng.randrange(256) for _ in range(rng.choice([2, 40, 700, 5000])))
+                req["body"] = body.hex()
+                req["cap"] = rng.choice([0, 1, len(body) // 2, len(body) - 1])
             case["ops"].append(req)
             if i + 1 < nreq and rng.random() < 0.3:       # queue the next request while this one is outstanding
                 queued_extra += 1
@@ -380,6 +394,24 @@ class CHECK(core.Check):
                                         "chunked": chunked},
                                        {"op": "resp", "status": 200, "location": None, "body": "6f6b", "pieces": 1,
                                         "chunked": not chunked}]}
+        # a redirect that arrives while part of the redirected request is still queued in the connector: to another host,
+        # port, scheme, an alias of the same address, the same authority; alone, after a hop, with a request queued behind
+        for scheme in ("http", "https"):
+            for f in ("http://b.test/moved?x=1", "http://a.test:81/moved", "https://b.test/moved", "https://a.test/moved",
+                      "http://alias.test/moved", "/moved?x=1", "moved", "%s://a.test/moved" % scheme):
+                for cap in (0, 3):
+                    for queued in (False, True):
+                        for status in (307, 302):
+                            ops = [{"op": "request", "method": "POST", "path": "/upload", "qargs": [], "body": "75706c6f6164" * 40,
+                                    "cap": cap}]
+                            if queued:
+                                ops.append({"op": "request", "method": "GET", "path": "/next", "qargs": [], "body": ""})
+                            ops += [{"op": "resp", "status": status, "location": f, "body": "", "pieces": 1},
+                                    {"op": "resp", "status": 200, "location": None, "body": "6f6b", "pieces": 1}]
+                            if queued:
+                                ops.append({"op": "resp", "status": 200, "location": None, "body": "6f6b32", "pieces": 1})
+                            yield {"dns": dict(self.DNS), "start": {"host": "a.test", "port": None, "scheme": scheme,
+                                                                   "redirectable": True}, "ops": ops}
         # a Location that cannot be used, first or after a followed hop, alone or with a request queued behind it
         for scheme in ("http", "https"):
             for bad in (None, "", "%s://b.test:8x/p" % scheme, "%s://b.test:99999/p" % scheme, "%s://[::1/x" % scheme,
@@ -416,7 +448,10 @@ class CHECK(core.Check):
             elif e[0] == "REQ":
                 c = net.conns[e[1]]
                 out.append("send %s %d %d %s %s %s %s" % (hx(c["ip"]), c["port"], 1 if c["tls"] else 0, hx(e[2]), hx(e[3]),
-                                                          hx(e[4]), hx(e[5])))
+                                                          hx(e[4]), "*" if e[5] is None else hx(e[5])))
+            elif e[0] == "GARBAGE":
+                c = net.conns[e[1]]
+                out.append("garbage %s %d %s" % (hx(c["ip"]), c["port"], hx(e[2])))
             elif e[0] in ("DELIVER", "STALL"):
                 out.append(e[0].lower())
         return ";".join(out) if out else "none"
@@ -427,6 +462,7 @@ class CHECK(core.Check):
         net = D.Net(case["dns"])
         calls, lines = [], []
         self._wrote[core.case_key(case)] = wrote = {}     # op index -> body bytes the stub server wrote
+        self._partial[core.case_key(case)] = partial = {}  # op index -> the socket took only part of this request
         pending = []           # connections with an unanswered request, oldest first
         state = {"delivered": 0, "dead": None}
         p = None
@@ -434,14 +470,40 @@ class CHECK(core.Check):
         def serve():
             for c, closed in net.pump():
                 while True:
-                    rq = D.split_request(c["buf"])
-                    if rq is None:
+                    if c.get("skip"):            # the rest of a body whose request was answered early
+                        n = min(c["skip"], len(c["buf"]))
+                        del c["buf"][:n]
+                        c["skip"] -= n
+                        if c["skip"]:
+                            break
+                    # what a host receives must begin with a request line
+                    line = bytes(c["buf"][:c["buf"].find(b"\r\n")]) if b"\r\n" in c["buf"] else None
+                    if line is not None and not re.fullmatch(rb"(GET|HEAD|POST|PUT|DELETE|PATCH|OPTIONS|TRACE|CONNECT) [\x21-\x7e]* HTTP/1\.1", line):
+                        net.log.append(("GARBAGE", c["id"], bytes(c["buf"][:24])))
+                        del c["buf"][:]
                         break
+                    rq = D.split_request(c["buf"])
+                    early = False
+                    if rq is None:
+                        cap = getattr(net, "cap", None)
+                        i = c["buf"].find(b"\r\n\r\n")
+                        if not (cap and cap["blocked"] and i >= 0):
+                            break
+                        # the client's socket is blocked in the middle of the body: answer the head (an early response)
+                        head = bytes(c["buf"][:i]).split(b"\r\n")
+                        hdrs = [(h.partition(b":")[0].strip().lower().decode("latin-1"), h.partition(b":")[2].strip().decode("latin-1"))
+                                for h in head[1:]]
+                        have = len(c["buf"]) - (i + 4)
+                        c["skip"] = int(dict(hdrs).get("content-length", "0")) - have
+                        del c["buf"][:]
+                        rq, early = (head[0], hdrs, None), True
                     start = rq[0].decode("latin-1")
                     m = re.match(r"^(\S+) (.*) HTTP/1\.1$", start, re.S)
                     method, target = (m.group(1), m.group(2)) if m else ("?", start)
                     net.log.append(("REQ", c["id"], method, target, dict(rq[1]).get("host", ""), rq[2]))
                     pending.append(c)
+                    if early:
+                        break
 
         def rounds(pieces=()):
             """service rounds until two consecutive idle ones; `pieces` are written one per round"""
@@ -478,6 +540,14 @@ class CHECK(core.Check):
                     cn = st["connector"]
                     kw["connector"] = (T if cn["tls"] else C)(host=cn["host"], port=cn["port"])
                 p = hc.Patron(**kw)
+                _sr = p.serviceResponse
+
+                def service_response():
+                    before = (len(p.redirects), len(p.responses))
+                    _sr()
+                    if (len(p.redirects), len(p.responses)) != before:
+                        state["txq"] = len(p.connector.txes)     # what the connector still has to send at this moment
+                p.serviceResponse = service_response
                 p.open()
                 lines.append(self._events_to_effects(net.log[mark:], net))
             except Exception as ex:
@@ -489,10 +559,18 @@ class CHECK(core.Check):
                     continue
                 mark = len(net.log)
                 try:
+                    state["txq"] = None
                     if op["op"] == "request":
+                        armed = op.get("cap") is not None and not p.waited and not p.requests
+                        if armed:
+                            net.arm_cap(op["cap"])
                         p.request(method=op["method"], path=op["path"], qargs=odict((k, v) for k, v in op["qargs"]),
                                   body=bytes.fromhex(op["body"]))
                         rounds()
+                        if armed and not net.cap["blocked"]:
+                            net.lift_cap()
+                        if getattr(net, "cap", None):
+                            partial[opi] = True      # the socket is blocked: nothing that is queued goes out in this round
                     else:
                         if not pending:          # a response nobody asked for: outside the model, see Model/Redirect.lean
                             lines.append("err out-of-model")
@@ -520,9 +598,13 @@ class CHECK(core.Check):
                         cut = [len(wire) * i // k for i in range(k + 1)]
                         before = len(net.log)
                         rounds([(conn, wire[cut[i]:cut[i + 1]]) for i in range(k)])
-                        if len(net.log) == before and p.waited:
+                        if len(net.log) == before and p.waited and state["txq"] is None:
                             net.log.append(("STALL",))
-                    lines.append(self._events_to_effects(net.log[mark:], net))
+                        if getattr(net, "cap", None):
+                            net.lift_cap()           # the blocked socket (if it is still there) takes the rest now
+                            rounds()
+                    lines.append(self._events_to_effects(net.log[mark:], net) +
+                                 (";txq %d" % state["txq"] if state["txq"] is not None and op["op"] == "resp" else ""))
                 except Exception as ex:
                     serve()
                     pre = self._events_to_effects(net.log[mark:], net)
@@ -602,7 +684,8 @@ class CHECK(core.Check):
         for opi, (op, m) in enumerate(zip(case["ops"], methods)):
             if op["op"] == "request":
                 kv = " ".join("%s %s" % (hx(k), hx(v)) for k, v in op["qargs"])
-                out.append(("request %s %s %s %s" % (hx(op["method"]), hx(op["path"]), op["body"] or "-", kv)).strip())
+                out.append(("%s %s %s %s %s" % ("requestp" if self._partial.get(key, {}).get(opi) else "request",
+                                                hx(op["method"]), hx(op["path"]), op["body"] or "-", kv)).strip())
             else:
                 n = len(bytes.fromhex(op["body"]))
                 blen = wrote[opi] if opi in wrote else (0 if (m == "HEAD" or op["status"] in (204, 304)) else n)
@@ -690,6 +773,11 @@ class CHECK(core.Check):
             err_eff = effs[-1] if effs and effs[-1].startswith("err ") else None
             if line == "dead":
                 return None        # the op that raised was judged already
+            for e in effs:
+                if e.startswith("garbage "):
+                    g = e.split()
+                    return "op %d: %s:%s received bytes that do not begin with a request line: %r" % (
+                        i, bytes.fromhex(g[1]).decode(), g[2], bytes.fromhex(g[3]))
             # never downgrade: once on https the client opens and uses TLS connections only
             if endpoint[2]:
                 for e in sends + opens:
